@@ -292,7 +292,7 @@ def gen_cases(rng, tier):
             if n == 3 and not thorough and rng.random() < 0.65:
                 continue
             cases.append(_ocase([K_LIST, [1, 2]], [list(o) for o in ops] + [[8]], "oset-hist"))
-    for _ in range(4000 if thorough else 350):
+    for _ in range(12000 if thorough else 350):
         init = rng.choice([[], _rand_oarg(rng, False)])
         ops = [_rand_oop(rng) for _ in range(rng.randint(4, 8))]
         cases.append(_ocase(init, ops, "oset-random"))
@@ -316,7 +316,7 @@ def gen_cases(rng, tier):
             if n == 3 and not thorough and rng.random() < 0.65:
                 continue
             cases.append(_icase(_IVALS, [0, 2], [list(o) for o in ops] + [[6]], "iset-hist"))
-    for _ in range(3000 if thorough else 250):
+    for _ in range(8000 if thorough else 250):
         vals = [rng.randint(0, 1) for _ in range(6)]
         init = [rng.randint(0, 5) for _ in range(rng.randint(0, 4))]
         cases.append(_icase(vals, init, [_rand_iop(rng) for _ in range(rng.randint(4, 8))], "iset-random"))
@@ -333,7 +333,7 @@ def gen_cases(rng, tier):
             cases.append({"in": [IDICT, [s, [[0, w, 1, 5], [0, w, 7, 5], [5, 1]]]], "kind": "idict-mutator"})
         for a in _D_ARGS:
             cases.append({"in": [IDICT, [s, [[2, 0, a], [3, 0, a], [4], [2, 1, a], [3, 1, a]]]], "kind": "idict-or"})
-    for _ in range(1500 if thorough else 200):
+    for _ in range(4000 if thorough else 200):
         s = [[rng.randint(0, 4), rng.randint(0, 9)] for _ in range(rng.randint(0, 3))]
         cases.append({"in": [IDICT, [s, [_rand_dop(rng) for _ in range(rng.randint(2, 6))]]], "kind": "idict-random"})
 
@@ -344,7 +344,7 @@ def gen_cases(rng, tier):
                 if n == 3 and not thorough and rng.random() < 0.65:
                     continue
                 cases.append({"in": [LRU, [cap, tn, td, 1, [list(o) for o in ops] + [[5]]]], "kind": "lru-hist"})
-    for _ in range(3000 if thorough else 350):
+    for _ in range(8000 if thorough else 350):
         cap = rng.randint(0, 4)
         tn, td = rng.choice([(0, 1), (1, 4), (1, 2), (1, 1), (3, 4)])
         nkeys = rng.choice([3, 5, 8])
@@ -737,6 +737,9 @@ def _impl_lru(p):
         except (KeyError, IndexError, ValueError, TypeError) as e:
             ret = [3, _exc_code(e)]
         except _Hang:
+            import signal
+
+            signal.setitimer(signal.ITIMER_VIRTUAL, 0)
             trace.append([[7], dump()])  # the while loop of _manage_size did not terminate
             break
         trace.append([ret, dump()])
@@ -747,20 +750,27 @@ class _Hang(Exception):
     pass
 
 
+_HANGS = [0]
+
+
 def _alarm(signum, frame):
+    _HANGS[0] += 1
     raise _Hang("operation did not finish within the step time limit")
 
 
 def impl(c):
     import signal
 
+    import sqlalchemy.util  # noqa: F401  (imported before the timer is armed)
+
     fam, p = c["in"]
-    signal.signal(signal.SIGALRM, _alarm)
-    signal.setitimer(signal.ITIMER_REAL, 4.0)  # a mutated loop must not hang the whole check
+    # a mutated loop must not hang the whole check: CPU-time limit per case (a case needs < 1 ms)
+    signal.signal(signal.SIGVTALRM, _alarm)
+    signal.setitimer(signal.ITIMER_VIRTUAL, 1.0 if _HANGS[0] < 3 else 0.1)
     try:
         return [_impl_oset, _impl_iset, _impl_idict, _impl_lru][fam](p)
     finally:
-        signal.setitimer(signal.ITIMER_REAL, 0)
+        signal.setitimer(signal.ITIMER_VIRTUAL, 0)
 
 
 # ------------------------------------------------------------------ direct property oracle
